@@ -29,3 +29,16 @@ Theorem C08_framing_independent : forall sign declared seed f1 f2 te,
   concat f1 = concat f2 -> run sign declared seed f1 te = run sign declared seed f2 te.
 Proof. exact same_bytes_same_run. Qed.
 Print Assumptions C08_framing_independent.
+
+(* the functional half: a complete, correctly signed upload - non-empty chunks below 4 GiB each signed over the previous
+   signature, then the signed empty chunk, declared length = total length - is accepted and delivers exactly its data,
+   under every framing; for every signing function that yields 64 bytes of text without line feeds (hex in the code) *)
+From S3V Require Import proofs.ChunkedComplete.
+Theorem C08_complete_accepted : forall sign declared,
+  (forall p d, length (sign p d) = 64%nat) -> (forall p d, ~ In 10%N (sign p d)) ->
+  forall seed datas frames te,
+  Forall chunk_ok datas -> length (concat datas) = declared ->
+  concat frames = encode sign seed (datas ++ [[]]) ->
+  run sign declared seed frames te = (concat datas, CleanEnd).
+Proof. exact complete_accepted. Qed.
+Print Assumptions C08_complete_accepted.
